@@ -246,3 +246,38 @@ def rule_locsets(ctx, prop: str) -> RuleResult:
         raise AnalysisError(f"LOCSETS: expected >= 7 effect cases updating the accumulators, found {n_cases}")
     res.floor = 20
     return res
+
+
+def rule_cfgreals(ctx, prop: str) -> RuleResult:
+    """In the analysis a real-valued scalar variable is a constant symbol.  That is only true of
+    scalars that are never assigned; predicates over the others must go through
+    `filter_reals(pred, get_changing_scalars(proc.body))`, which makes them unknown.
+    Check_DeleteConfigWrite decides "the configuration field has the same value before and after
+    these statements" (`G(AEq(pt_e, stmtsG(pt_e)))`): for `CFG.a = x; x = 2.0; CFG.a = x` that
+    equality holds symbolically (x == x) although the two values differ, the second write is
+    judged redundant and deleted, and a later read of CFG.a sees the old value."""
+    ix = ctx.ix
+    res = RuleResult("CFGREALS")
+    f = ix.func(NE, "Check_DeleteConfigWrite")
+    res.analysed.append(f"{NE}:Check_DeleteConfigWrite")
+    eqs = [n for n in f.all_nodes() if isinstance(n, ast.Call) and last_name(n) == "AEq"]  # nested helpers included
+    if not eqs:
+        raise AnalysisError("anchor vanished: no AEq(value before, value after) in Check_DeleteConfigWrite")
+    chg = {n.targets[0].id for n in f.body_nodes() if isinstance(n, ast.Assign) and len(n.targets) == 1 and isinstance(n.targets[0], ast.Name) and isinstance(n.value, ast.Call) and last_name(n.value) == "get_changing_scalars"}
+    for e in eqs:
+        res.instances += 1
+        res.nontrivial += 1
+        p_ = parent(e)
+        ok = False
+        while p_ is not None and not isinstance(p_, ast.stmt):
+            if isinstance(p_, ast.Call) and last_name(p_) == "filter_reals" and len(p_.args) == 2 and isinstance(p_.args[1], ast.Name) and p_.args[1].id in chg:
+                ok = True
+            p_ = parent(p_)
+        res.ob(ok)
+        res.sample(f"Check_DeleteConfigWrite: `{ast.unparse(e)[:50]}` filtered for changing real scalars: {ok}")
+        if not ok:
+            res.add(Finding("CFGREALS", NE, e.lineno, "Check_DeleteConfigWrite", f"unfiltered:{ast.unparse(e)[:40]}",
+                            f"`{ast.unparse(e)[:60]}` is decided with real scalar variables as constant symbols: `CFG.a = x; x = 2.0; CFG.a = x; y[0] = CFG.a` — the second write equals the first "
+                            f"symbolically, delete_config removes it and y[0] receives the old x. The equality must go through filter_reals(..., get_changing_scalars(proc.body))"))
+    res.floor = 2
+    return res
